@@ -77,6 +77,9 @@ def settings():
     yield ("gen_combine_terms_in_place", {"min_terms": 3, "max_terms": 8, "easy": False, "powers": True}, True)
     yield ("gen_commute_haystack", {}, True)
     yield ("gen_commute_haystack", {"min_terms": 3, "max_terms": 6, "commute_blockers": 2, "easy": False, "powers": True}, True)
+    for mt, cb in ((3, 1), (3, 2), (3, 3), (2, 1), (4, 3), (5, 4)):
+        yield ("gen_commute_haystack", {"min_terms": mt, "max_terms": mt, "commute_blockers": cb}, True)
+    yield ("gen_combine_terms_in_place", {"min_terms": 2, "max_terms": 3}, True)
     for nb in (1, 2, 4):
         yield ("gen_move_around_blockers_one", {"number_blockers": nb}, True)
         yield ("gen_move_around_blockers_one", {"number_blockers": nb, "powers_probability": 1.0}, True)
@@ -117,6 +120,17 @@ def helpers(nseeds):
     n = 0
     for s in range(nseeds):
         random.seed(s)
+        # term templates: distinct (variable, exponent) pairs that respect the exclusions
+        for k, common, prob, excl in ((3, False, 0.5, None), (2, True, 1.0, [P.MathyTermTemplate("x", 2)]), (3, True, 1.0, None), (4, False, 1.0, [P.MathyTermTemplate("a", 2), P.MathyTermTemplate("b", None)])):
+            n += 1
+            try:
+                ts = P.get_rand_term_templates(k, exclude_like=excl, common_variables=common, exponent_probability=prob)
+            except EnvironmentError:
+                continue
+            keys = [(t.variable, t.exponent) for t in ts]
+            ex = [(t.variable, t.exponent) for t in (excl or [])]
+            if len(ts) != k or len(set(keys)) != k or any(kk in ex for kk in keys):
+                fails.append({"clause": "requested-term-templates", "detail": f"get_rand_term_templates({k}, exclude={ex}, common={common}, p={prob}) seed={s} -> {keys}"})
         for v in (0, 1, 2, 5, 8, 17):
             n += 1
             lo, hi = P.split_in_two_random(v)
